@@ -31,6 +31,10 @@ struct Extra {
 
 #[derive(Clone, Debug)]
 struct Case {
+    /// --end (None = whole chain): a range end at a height where a competitor exists
+    end: Option<u64>,
+    /// seed of the deterministic getrandom stream => iteration order of the subject's HashMaps (ties)
+    hash_seed: u8,
     extras: Vec<Extra>,
     /// 0: all records once, log only; 1: data records first written header-only, compacted into a table, then upgraded; 2: table only
     form: u8,
@@ -106,11 +110,24 @@ pub fn run() -> Report {
     for s in &sets {
         for &form in &forms {
             for cb in &cbs {
-                cases.push(Case { extras: s.clone(), form, cb });
+                cases.push(Case { end: None, hash_seed: 1, extras: s.clone(), form, cb });
+            }
+        }
+        // range ends at / just above / below a competitor's height, under three HashMap iteration orders
+        if s.len() == 1 || thorough {
+            let hs: Vec<u64> = s.iter().map(|x| x.height).filter(|h| *h >= 1 && *h < TIP).collect();
+            for h in hs {
+                for end in [h, h + 1] {
+                    if end >= 1 && end <= TIP {
+                        for hash_seed in [1u8, 2, 6, 9, 17, 18, 19, 28, 47, 48] {
+                            cases.push(Case { end: Some(end), hash_seed, extras: s.clone(), form: 0, cb: "csvdump" });
+                        }
+                    }
+                }
             }
         }
     }
-    rep.rule = "active chain of 5 blocks plus every set of <= 2 extra index records drawn from {header-only (VALID_TREE) at/below/beyond the tip, never-connected stale sibling with data, failed block with data, FAILED_CHILD header, once-active reorged-out 2-block branch, invalidated (FAILED_VALID/FAILED_CHILD, formerly fully validated) 3-block branch reaching above the tip, never-connected blocks with data above the tip}, each competitor at an occupied height in both LevelDB key orders (nonce ground); index histories {log only, header-only-then-upgraded across a compaction, table only}; csvdump and unspentcsvdump; non-trivial = distinct case with >= 1 extra record".into();
+    rep.rule = "active chain of 5 blocks plus every set of <= 2 extra index records drawn from {header-only (VALID_TREE) at/below/beyond the tip, never-connected stale sibling with data, failed block with data, FAILED_CHILD header, once-active reorged-out 2-block branch, invalidated (FAILED_VALID/FAILED_CHILD, formerly fully validated) 3-block branch reaching above the tip, never-connected blocks with data above the tip}, each competitor at an occupied height in both LevelDB key orders (nonce ground); index histories {log only, header-only-then-upgraded across a compaction, table only}; --end at and just above each competitor's height under 10 HashMap iteration orders (seeds of the deterministic getrandom stream); csvdump and unspentcsvdump; non-trivial = distinct case with >= 1 extra record".into();
     rep.bound = json!({"active_chain": 5, "extras_per_index": "<=2", "singles": singles.len(), "sets": sets.len(), "cases": cases.len()});
     rep.not_covered = vec!["two fully validated competing tips of equal height (not decidable from the index alone)".into(), "adversarial header bytes in header-only records".into()];
     let root = refmodel::world::scratch_root();
@@ -201,7 +218,10 @@ pub fn run() -> Report {
                     world.index_ops.push(IndexOp::Compact);
                 }
             }
-            let spec = RunSpec::new("bitcoin", c.cb);
+            let mut spec = RunSpec::new("bitcoin", c.cb).range(None, c.end);
+            if c.hash_seed != 1 {
+                spec.env.push(("VERIF_DETRAND".into(), c.hash_seed.to_string()));
+            }
             let r = match wk.world_run(&world, &spec) {
                 Ok(r) => r,
                 Err(m) => return acc.machinery(m),
@@ -220,8 +240,9 @@ pub fn run() -> Report {
             }
             let (s, e) = (r.declared_start().unwrap_or(0), r.declared_end().unwrap_or(TIP));
             let mut bad: Vec<Mismatch> = Vec::new();
-            if r.ok() && e != TIP {
-                bad.push(("wrong-tip".into(), format!("processed up to height {} but the active tip is {}", e, TIP)));
+            let want_end = c.end.unwrap_or(TIP).min(TIP);
+            if r.ok() && e != want_end {
+                bad.push(("wrong-tip".into(), format!("processed up to height {} but the range ends at {}", e, want_end)));
             }
             let range = in_range(&all, s, e);
             bad.extend(if c.cb == "csvdump" { check_csvdump(&r, btc, &range, s, e) } else { check_unspent(&r, btc, &range, s, e) });
